@@ -45,7 +45,7 @@ BOUNDS = {"quick": "Qst Q1 (tables N<=3), Povmt Q1 m=2 (N<=2) and m=3 (N=1), Qpt
           "thorough": "adds: every stopping mode x window {1,2,3} x eps {default, x100; /100 for the loss modes} x {generic, fast} on every core dataset; tables Qst Q1 N=4, Povmt m=2 N=3, "
                       "Povmt m=3 N=2, Qpt N=1 with at most two schedules off, Qst Q3 N=2 with at most two schedules off; SCS eps 1e-6"}
 EXHAUSTIVE = {"quick": True, "thorough": True}
-CASE_TIMEOUT = 1500
+CASE_TIMEOUT = 3000
 
 CPROJ = 20.0
 EPS_PROJ = 1e-14            # library default eps_proj_physical = atol/10
@@ -203,8 +203,10 @@ def families(tier, seed):
         for d in (stop_datasets(S) if tier == "quick" else core_datasets(S, tier)):
             for kind in ("se", "re"):
                 for flag in (True, False):
-                    stops.append({"cfg": cfg, "data": d, "kind": kind, "flags": [flag], "variants": ["_fast"] if tier == "quick" else ["", "_fast"],
-                                  "stops": all_stops(tier), "cvx": []})
+                    for variant in (["_fast"] if tier == "quick" else ["", "_fast"]):
+                        for mode in MODES:
+                            stops.append({"cfg": cfg, "data": d, "kind": kind, "flags": [flag], "variants": [variant],
+                                          "stops": [st for st in all_stops(tier) if st[0] == mode], "cvx": []})
         for (N, mw) in table_plan(cfg, tier):
             for tab in M.tables(S, N, mw):
                 for kind in ("se", "re"):
@@ -477,7 +479,7 @@ def execute(family, p, seed):
     digs = []
     nontrivial = False
 
-    def judge(label, cls, xs_hat, fhat, tol, tolk, gnorm, flag, v, L, cause_fn):
+    def judge(label, cls, xs_hat, fhat, tol, tolk, gnorm, flag, v, L, cause_fn, note=""):
         """end-to-end verdicts for one estimate; returns True when it is an (approximate) minimiser"""
         site = label.split("_")[0]
         okay = True
@@ -498,7 +500,7 @@ def execute(family, p, seed):
             cause = cause_fn()
             out.fail("%s:not-a-minimiser:%s:%s" % (site, cause, cls),
                      "data %s: loss %.10g at the estimate, %.10g at the (physical) solution of an independent convex solve (its KKT gap %.2g); "
-                     "excess %.3g > allowed %.3g; KKT residual at the estimate %.3g" % (dname, fhat, ref[1], ref[2], excess, tol, gb))
+                     "excess %.3g > allowed %.3g; KKT residual at the estimate %.3g%s" % (dname, fhat, ref[1], ref[2], excess, tol, gb, note))
             okay = False
         elif gb <= tol or (ref is not None and ref[2] <= tol):
             out.count("kkt_certified")                    # sub-optimality <= 2 tol against ALL physical competitors
@@ -558,11 +560,15 @@ def execute(family, p, seed):
                 tolk = tol_kkt(mode, eps, gnorm)
 
                 def cause_fn(ls=ls):
-                    return "direction-not-descent-in-variable-metric" if ls["not_descent"] > 1.0 else "cause-unknown"
-                healthy = judge(site if ls["iso"] else site + "_noniso", cls + ":" + mode, xs_hat, L.value(v), tol, tolk, gnorm, flag, v, L, cause_fn)
+                    if not ls["iso"]:
+                        # projection in the stacked frame, gradient in reduced variables that are not a (scaled) isometry of it
+                        return "non-isometric-parametrisation"
+                    return "direction-not-descent" if ls["not_descent"] > 1.0 else "cause-unknown"
+                note = "; the run contains steps whose direction y_k is not a descent direction (g.y + mu |y|^2 > 0)" if ls["not_descent"] > 1.0 else ""
+                healthy = judge(site if ls["iso"] else site + "_noniso", cls + ":" + mode, xs_hat, L.value(v), tol, tolk, gnorm, flag, v, L, cause_fn, note)
                 if ls["not_descent"] > 1.0:
                     out.count("runs_with_non_descent_direction")
-                estimates.append(("pgdb:%s:%s:%s" % (cls, mode, nhist), xs_hat, tol, healthy, cls))
+                estimates.append(("pgdb:%s:%s:%s" % (cls, mode, nhist), xs_hat, tol, healthy, cause_fn() + ":" + cls))
     for eps_tol in p["cvx"]:
         site = "cvxpy"
         cls = "%s:%s:scs" % (cfg, kind)
